@@ -161,8 +161,20 @@ def make_ops(seed):
     # resolution with BOTH schemas parsed once and shared
     P["REC2"] = parse_schema(copy.deepcopy(REC2))
     ops["resolve-record-shared-reader"] = lambda: canon(to_wire(schemaless_reader(io.BytesIO(b_rec), P["REC"], P["REC2"])))
+    # reads that differ only in an OPTION of the call (how undecodable string bytes are treated): string values that
+    # are not UTF-8, schemaless and container
+    BADS = {"type": "record", "name": "t.Txt", "fields": [{"name": "s", "type": "string"}, {"name": "m", "type": {"type": "map", "values": "string"}}]}
+    P["BADS"] = parse_schema(copy.deepcopy(BADS))
+    bad_txt = b"ab\xff\xfecd"
+    b_bads = bytes([len(bad_txt) * 2]) + bad_txt + b"\x02\x02k" + bytes([len(bad_txt) * 2]) + bad_txt + b"\x00"     # (map keys are always strict)
+    cont_bads = io.BytesIO()
+    fastavro.writer(cont_bads, P["BADS"], [], codec="null", sync_marker=b"0123456789abcdef")        # the header alone
+    cont_bads = cont_bads.getvalue() + b"\x04" + bytes([2 * 2 * len(b_bads)]) + b_bads + b_bads + b"0123456789abcdef"   # one block of two records
+    for mode in ("strict", "replace", "ignore"):
+        ops["read-bad-utf8-" + mode] = (lambda mode=mode: canon(to_wire(schemaless_reader(io.BytesIO(b_bads), P["BADS"], handle_unicode_errors=mode))))
+        ops["container-read-bad-utf8-" + mode] = (lambda mode=mode: [canon(to_wire(x)) for x in fastavro.reader(io.BytesIO(cont_bads), handle_unicode_errors=mode)])
     ops_shared = [P[k] for k in sorted(P)]
-    raw = {"REC": REC, "LOG": LOG, "LIST": LIST, "DEF": DEF, "REC2": REC2}
+    raw = {"REC": REC, "LOG": LOG, "LIST": LIST, "DEF": DEF, "REC2": REC2, "BADS": BADS}
 
     def refresh():
         """freshly parsed schema objects (no operation has touched them yet) under the same names"""
@@ -471,7 +483,7 @@ def run(tier, seed):
             if len(run.violations) >= 25:
                 break          # a broken tree does not need every schedule
             if tier == "quick" and (zlib.crc32(("%s|%s|%d" % (a, b, seed)).encode()) % 3 != 0) and not (a.startswith("read-decimal") and b.startswith("read-decimal")) \
-                    and not dirty[a]:
+                    and not ("-bad-utf8-" in a and "-bad-utf8-" in b) and not dirty[a]:
                 continue
             if na <= cap:
                 points = list(range(1, na + 1))
